@@ -30,6 +30,28 @@ PROPS = {
             "theorem carries the flags/body invariant that C01's validity predicate requires",
         ],
     },
+    "C09": {
+        "lean_targets": ["Cql.Props.C09"],
+        "trusted_base": COMMON_TRUST + [HARNESS,
+            "Cql/Inflight.lean: hand-written API-level model of client/inflight.go (one step = one handler call), tied to the code "
+            "only by the correspondence run through the `verif` export shim client/verif_hooks.go"],
+        "assumptions": [
+            "each handler call is atomic (API-level histories); interleavings of the internal steps of concurrent callers are covered by "
+            "the separate micro-step theorems where present, and otherwise only sampled by the harness",
+            "timers do not fire during the modelled history (timeouts are C16)",
+            "the request channel capacity MaxPending is at least 1",
+        ],
+    },
+    "C10": {
+        "lean_targets": ["Cql.Props.C10"],
+        "trusted_base": COMMON_TRUST + [HARNESS,
+            "Cql/Inflight.lean: hand-written API-level model of client/inflight.go, tied to the code by the correspondence run"],
+        "assumptions": [
+            "each handler call is atomic; the receive loop is the only caller of onIncomingFrameReceived (as in client.go)",
+            "timers do not fire during the modelled history; the connection context is not cancelled mid-delivery",
+            "event dispatch (opcode EVENT never reaches the in-flight handler) is checked by the harness on the real client, not in this model",
+        ],
+    },
 }
 
 MANIFEST_TEXT = {
@@ -55,6 +77,28 @@ MANIFEST_TEXT = {
         "note": "Trusted: Lean kernel; the translator's reading of the accessor/mutator bodies; the harness for the 'still encodes and "
                 "round-trips' clause (checked on the implementation for explored sequences, and by C01's theorem for valid frames).",
         "technique": "Lean 4 invariant-by-induction and refinement theorems over functions regenerated from the Go source",
+    },
+    "C09": {
+        "text": "Lean theorems over an executable model of the in-flight handler: an inductive invariant (every id of 1..N is in exactly "
+                "one of pool / in-flight map, sizes add up to N, entries point at live requests with that id) holds in EVERY state "
+                "reachable by ANY finite history of managed sends, deliveries (final or not, known or unknown id), consumer reads and "
+                "close, for every N; from it: accepted sends get a fresh id in 1..N, the N+1-st is refused without state change, a final "
+                "response returns the id, after all are answered N more sends succeed; explicit reuse of an in-flight id is refused in "
+                "any state. The model is compared with the real handler output-by-output on exhaustive small and random long histories.",
+        "design_ref": "DESIGN.md §5 C09",
+        "note": "Trusted: Lean kernel; the hand-written model (tied by differential runs through client/verif_hooks.go, build tag verif). "
+                "Goroutine interleavings inside one handler call are outside the API-level theorems.",
+        "technique": "Lean 4 invariant by induction over operation histories of an executable state-machine model + differential correspondence",
+    },
+    "C10": {
+        "text": "Lean theorems over the same model, for every state and history with arbitrary (managed or explicit) ids: a frame for an "
+                "unknown id changes nothing; a delivery touches no request other than the one registered under its id; on success the "
+                "frame is appended exactly once after all earlier ones and the request completes exactly on the last page; in every "
+                "reachable state the request registered under id k was sent with id k; consumers read frames in acceptance order.",
+        "design_ref": "DESIGN.md §5 C10",
+        "note": "Trusted: Lean kernel; the hand-written model (differentially tied to the real handler). Event dispatch and the v5 segment "
+                "path are exercised by the harness / C15, not proved here.",
+        "technique": "Lean 4 per-step frame/refinement theorems + reachable-state invariant over an executable model + differential correspondence",
     },
 }
 
